@@ -5,7 +5,7 @@ Generates first-order AST mutants of lasio/{las,reader,writer,las_items,defaults
 test-suite ("realistic changes the existing tests do not notice"), and runs every claimed check (reduced budget) against
 each survivor.  Results go to /verif/mutants/sweep/<stamp>.json: killed-by-suite, caught-by-check (which), not caught.
 
-usage: tools/mutation_sweep.py [--slots 8] [--limit N] [--files las.py,reader.py] [--seed 0] [--runs-scale 0.1]
+usage: tools/mutation_sweep.py [--slots 8] [--limit N] [--files las.py,reader.py] [--seed 0] [--runs-scale 0.1] [--retry <earlier result.json>]
 """
 import ast
 import copy
@@ -254,6 +254,12 @@ def main():
     random.Random(seed).shuffle(muts)
     if limit:
         muts = muts[:limit]
+    retry = opt("--retry", "")
+    if retry:
+        # second look at the survivors of an earlier sweep (same /repo HEAD), with a larger budget
+        prev = json.load(open(retry))
+        want = set((r["file"], r["kind"], r["line"], r["col"]) for r in prev["results"] if r.get("status") == "not-caught")
+        muts = [m for m in make_mutants(files) if (m["file"], m["kind"], m["line"], m["col"]) in want]
     man = json.load(open("/verif/MANIFEST.json"))
     sys.path.insert(0, "/verif")
     os.environ["LASIM_NO_REEXEC"] = "1"
